@@ -15,7 +15,7 @@ CONSTANTS
   RespFaults = FALSE
   PreResp = TRUE
   Probe = FALSE
-  AsBuiltT <- NoT
+  AsBuiltT <- LazyTimer
   GenDepth = 0
 INIT InitH
 NEXT NextH
